@@ -175,8 +175,8 @@ Definition no_dangling (s : state) : bool :=
   forallb (fun p => node_live s (e_src (snd p)) && node_live s (e_dst (snd p))) (live_edges s).
 (** the oracle failure "a deleted/non-existent node shows up as an endpoint or neighbour" is the
     listed finding when the history is in the class and the model predicts a dangling edge *)
-Definition k_dangling (backward : bool) (t : list item) : bool :=
-  hist_dangles (init backward) (ops_of t) && negb (no_dangling (run (init backward) (ops_of t))).
+Definition k_dangling (backward : bool) (ops : list op) : bool :=
+  hist_dangles (init backward) ops && negb (no_dangling (run (init backward) ops)).
 
 (** C14-K6: the history sets a node property on an id that is not a live node *)
 Definition op_sets_dead (s : state) (o : op) : bool :=
@@ -191,13 +191,13 @@ Fixpoint hist_sets_dead (s : state) (ops : list op) : bool :=
   end.
 
 (** C14-K3 / K6: index lookup differs from the scan *)
-Definition k_index_float (backward : bool) (t : list item) (key : Z) (q : value) : bool :=
-  let s := run (init backward) (ops_of t) in
+Definition k_index_float (backward : bool) (ops : list op) (key : Z) (q : value) : bool :=
+  let s := run (init backward) ops in
   has_float_special q && has_index s key
   && negb (zlist_eqb (zsort (find_by_prop s key q)) (zsort (scan_by_prop s key q))).
-Definition k_index_dead (backward : bool) (t : list item) (key : Z) (q : value) : bool :=
-  let s := run (init backward) (ops_of t) in
-  hist_sets_dead (init backward) (ops_of t) && has_index s key
+Definition k_index_dead (backward : bool) (ops : list op) (key : Z) (q : value) : bool :=
+  let s := run (init backward) ops in
+  hist_sets_dead (init backward) ops && has_index s key
   && negb (zlist_eqb (zsort (find_by_prop s key q)) (zsort (scan_by_prop s key q))).
 
 (** C14-K4 / K5: zone-map pruning claims "no match" although a stored value matches *)
@@ -224,8 +224,8 @@ Definition k_zone_ne_col (c : column) (o : cmpop) (q : value) : bool :=
   end.
 Definition col_witness (c : column) (o : cmpop) (q : value) : bool :=
   existsb (fun x => sat o x q) (map snd (c_vals c)).
-Definition k_zone (backward node : bool) (t : list item) (key : Z) (o : cmpop) (q : value) (round : bool) : bool :=
-  let s := run (init backward) (ops_of t) in
+Definition k_zone (backward node : bool) (ops : list op) (key : Z) (o : cmpop) (q : value) (round : bool) : bool :=
+  let s := run (init backward) ops in
   match zget (if node then nprops s else eprops s) key with
   | Some c => negb (col_might_match c o q) && col_witness c o q
               && (if round then k_zone_round_col c o q else k_zone_ne_col c o q)
@@ -248,7 +248,7 @@ Fixpoint hist_label_unflagged (s : state) (ops : list op) : bool :=
 Definition stats_eqb (a b : stats) : bool :=
   (s_nodes a =? s_nodes b) && (s_edges a =? s_edges b)
   && plist_eqb (psort (s_labels a)) (psort (s_labels b)) && plist_eqb (psort (s_etypes a)) (psort (s_etypes b)).
-Definition k_stats_label (backward : bool) (t : list item) : bool :=
-  let s := run (init backward) (ops_of t) in
-  hist_label_unflagged (init backward) (ops_of t) && negb (stats_dirty s)
+Definition k_stats_label (backward : bool) (ops : list op) : bool :=
+  let s := run (init backward) ops in
+  hist_label_unflagged (init backward) ops && negb (stats_dirty s)
   && negb (stats_eqb (stats_cur s) (compute_stats s)).
